@@ -27,6 +27,8 @@ def handle (st : DState) (j : Json) : DState × Json :=
   | .str "trim_terms" => (st, trimTermsOp j)
   | .str "frob" => (st, frobOp j)
   | .str "qft" => (st, qftOp j)
+  | .str "link" => (st, linkOp j)
+  | .str "dmet_reorder" => (st, dmetReorderOp j)
   | .str "partition" => (st, partitionOp j)
   | .str "pad1" => (st, pad1Op j)
   | .str "spinsum1" => (st, spinSum1Op j)
